@@ -130,17 +130,33 @@ func loadFile(sys fs.FS, fname string) (pkgList, error) {
 }
 
 func checkConstraint(s string) (bool, error) {
-	line := strings.Split(strings.TrimSpace(s), "\n")[0]
-	if !constraint.IsGoBuild(line) {
-		return true, nil
+	// as in Go, the constraint sits in the file header: blank lines and other
+	// comments may precede it, code may not
+	inBlock := false
+	for _, line := range strings.Split(s, "\n") {
+		line = strings.TrimSpace(line)
+		switch {
+		case inBlock:
+			inBlock = !strings.Contains(line, "*/")
+			continue
+		case line == "":
+			continue
+		case strings.HasPrefix(line, "/*"):
+			inBlock = !strings.Contains(line, "*/")
+			continue
+		case constraint.IsGoBuild(line):
+			expr, err := constraint.Parse(line)
+			if err != nil {
+				return false, err
+			}
+			ok := func(t string) bool { return t == "goat" }
+			return expr.Eval(ok), nil
+		case strings.HasPrefix(line, "//"):
+			continue
+		}
+		break
 	}
-	expr, err := constraint.Parse(line)
-	if err != nil {
-		return false, err
-	}
-	ok := func(t string) bool { return t == "goat" }
-	return expr.Eval(ok), nil
-
+	return true, nil
 }
 func rawLoadFile(sys fs.FS, fname string, checkBC bool) (*token, error) {
 	b, err := fs.ReadFile(sys, fname)
